@@ -31,6 +31,12 @@ CLAIMED = {
  "C15": ("enumx", ENUMX,
          "Every builder operation sequence up to length 3/4 (all 16 parameter/config combinations) and 4/5 (one combination) over 18 operations on 4 app values (two sharing an id) is built twice and compared - method, URI, headers, JSON body with exact array order - with an independent encoder folding the operation history; every event type x result x error code x optional-field subset is encoded and compared with a literal code table.",
          "Extra-field keys colliding with protocol attributes are not generated; longer sequences are not reached.", "3/C15"),
+ "C07": ("smx", SMX,
+         "Every X-Retry-After string over a 10-symbol alphabet (digits, signs, blanks, letter, dot, 0xff) up to length 4/5, a numeric boundary family with leading zeros, duplicates and name-case variants, for statuses 200/500 and with/without a stored interval, is sent through one real check and the value announced, committed and presented by a rebuilt state machine is compared with an independent reading (plain decimal u64, capped at 86400 s); every assignment of {7 s, 99999 s, no header, no response, forged+header} to the exchanges update check / 3 event reports / 2 pings is executed with announcement-and-commit-before-continuing and a rebuilt machine checked after every exchange.",
+         "Leading '+' and conflicting duplicate headers treated as unspecified; header strings beyond the alphabet/length bound not reached.", "3/C07"),
+ "C08": ("smx", SMX,
+         "Every history up to length 3/4 over 10 check outcome classes, 4 ping outcomes and end-of-wait inside the reboot wait, and restart (CUP on/off, plus a construction-failure configuration) runs on the real state machine with a clock that is never microsecond aligned; the reference (failures since last success; last contact only on answered checks / successful pings) is compared with the announcements and the next policy call, and after EVERY storage commit a fresh state machine is built on the surviving snapshot: it must present the values before or after the current step, never a mixture, and the values after once the step has finished.",
+         "Crash = loss of exactly the uncommitted writes (atomic commit contract); histories longer than the bound not reached; 'failed check' = Err result.", "3/C08"),
 }
 
 PENDING_REASON = "check under construction in this round (design in DESIGN.md section 3); not claimed until its machinery is committed"
